@@ -15,6 +15,7 @@ from ..model import AnalysisError
 from ..nodes import DESER_MOD
 from ..util import dotted, norm, short, walk_no_nested
 from ..visitors import totality
+from .common_children import children_rule
 from .common_counter import check_counters, counter_mutants
 
 VISITOR = "apischema.deserialization.DeserializationMethodVisitor"
@@ -238,6 +239,10 @@ def check(ctx):
     # ---------------- R5
     check_counters(ctx, "C01.R5")
 
+    # ---------------- R7
+    ctx.rule("C01.R7", "every child method held by a node is applied to the matching part of the datum and its result used", floor=50)
+    children_rule(ctx, "C01.R7", "deser")
+
 
 def mutants(mb):
     M = "apischema/deserialization/methods.py"
@@ -264,5 +269,12 @@ def mutants(mb):
                 "        if attr1 is not None and attr2 is not None:\n            constraints[name] = metadata.merge(attr1, attr2)\n        else:\n            constraints[name] = attr1 or attr2", "C01.R6", "merge_constraints")
     mb.add_text("merge-into-truthy", "apischema/constraints.py", "            if attr is not None:\n                alias = metadata.alias", "            if attr:\n                alias = metadata.alias", "C01.R6", "merge_into")
     counter_mutants(mb, "C01.R5")
+    mb.add_text("list-elt-unconverted", M, "                values[i] = self.value_method.deserialize(elt)", "                values[i] = elt", "C01.R7", "ListMethod.value_method")
+    mb.add_text("mapping-key-unconverted", M, "                items[self.key_method.deserialize(key)] = self.value_method.deserialize(", "                items[key] = self.value_method.deserialize(", "C01.R7", "MappingMethod.key_method")
+    mb.add_text("mapping-value-gets-key", M, "                items[self.key_method.deserialize(key)] = self.value_method.deserialize(\n                    value\n", "                items[self.key_method.deserialize(key)] = self.value_method.deserialize(\n                    key\n", "C01.R7", "MappingMethod.value_method:part")
+    mb.add_text("tuple-elt-index", M, "                elts[i] = elt_method.deserialize(data[i])", "                elts[i] = elt_method.deserialize(i)", "C01.R7", "TupleMethod.elt_methods:arg")
+    mb.add_text("additional-unconverted", M, "                    ] = self.additional_field.method.deserialize(additional)", "                    ] = additional", "C01.R7", "ObjectMethod.additional_field")
+    mb.add_text("conversion-result-unused", M, "        value = self.method.deserialize(data)\n", "        value = data\n", "C01.R7", "ConversionWithValueErrorMethod")
+    mb.add_text("neg-child-local-alias", M, "                values[i] = self.value_method.deserialize(elt)", "                vm = self.value_method\n                values[i] = vm.deserialize(elt)", negative=True)
     mb.add_text("neg-operand-order", M, "        return data >= self.minimum", "        return self.minimum <= data", negative=True)
     mb.add_text("neg-guard-form", M, "        if not isinstance(data, bool):\n            raise bad_type(data, bool)\n        return data", "        if isinstance(data, bool):\n            return data\n        raise bad_type(data, bool)", negative=True)
